@@ -320,6 +320,17 @@ func RunImpl(src string, cfg *Config) *ImplRun {
 		}
 		return L.Yield(args...)
 	}))
+	L.SetGlobal("hostpanic", L.NewFunction(func(L *lua.LState) int {
+		panic("host function panics")
+	}))
+	L.SetGlobal("hostymore", L.NewFunction(func(L *lua.LState) int {
+		// yields more values than it was given: its arguments and two of its own
+		var args []lua.LValue
+		for i := 1; i <= L.GetTop(); i++ {
+			args = append(args, L.Get(i))
+		}
+		return L.Yield(append(args, lua.LString("own1"), lua.LNumber(2))...)
+	}))
 	L.SetGlobal("snap", L.NewFunction(func(L *lua.LState) int {
 		r.Snaps = append(r.Snaps, lua.VerifSnapshot(L))
 		return 0
@@ -546,6 +557,13 @@ func RunModel(c *last.Chunk, cfg *Config) *ModelRun {
 	})
 	in.Register("hosty", func(in *lref.Interp, a []lref.Value) []lref.Value {
 		return in.Yield(a)
+	})
+	in.Register("hostpanic", func(in *lref.Interp, a []lref.Value) []lref.Value {
+		in.Throw(lref.GoPanicValue{})
+		return nil
+	})
+	in.Register("hostymore", func(in *lref.Interp, a []lref.Value) []lref.Value {
+		return in.Yield(append(append([]lref.Value(nil), a...), "own1", float64(2)))
 	})
 	in.Register("hostcall", func(in *lref.Interp, a []lref.Value) []lref.Value {
 		if len(a) == 0 {
